@@ -7,10 +7,17 @@ is explored for every combination of the other command-line factors, through
 directory, and the exit-status half again through real ``python -m jsonschema``
 processes.  Oracle: mc/ref/cli.py (fold over the library's own iter_errors of
 the class the command line has to select).
+
+The alphabet of a file is two-level: what value it holds (for the schema file
+also the whole-file values true / false / {} / 12 / null) and what its *text*
+looks like around a complete JSON value (empty, white space, trailing data in
+four forms, byte order mark, padding) — for the schema file, every instance
+file and stdin alike; whether a text loads is json.loads' answer in the model.
 """
 import io
 import itertools
 import json
+import locale
 import os
 import shutil
 import subprocess
@@ -43,13 +50,60 @@ DEFS = {"definitions": {"int": {"type": "integer"}, "str": {"type": "string"}}}
 S_D4ONLY = {"properties": {"a": {"type": "integer"}, "c": {"minimum": 3, "exclusiveMinimum": True}}}
 S_INVALID = {"type": 12}
 
-SCHEMA_STATES = ["valid", "missing", "notjson", "invalid", "valid-ref", "d4only"]
-SCHEMA_TEXT = {"notjson": "{not json", "invalid": json.dumps(S_INVALID), "valid": json.dumps(S_VALID),
-               "valid-ref": json.dumps(S_REF), "d4only": json.dumps(S_D4ONLY)}
-SCHEMA_VALUE = {"invalid": S_INVALID, "valid": S_VALID, "valid-ref": S_REF, "d4only": S_D4ONLY}
+# ---- text shapes: what the characters of a file (or of stdin) look like around a
+# complete JSON value.  "x-": the json module does not load the text, "w-": it does
+# (verified against json.loads in plan()).  Applied to the schema file, to every
+# instance file and to stdin.
+BOM = u"\ufeff"
+try:        # files are written and read with the interpreter's default text encoding
+    BOM.encode(locale.getpreferredencoding(False))
+    BOM_OK = True
+except (UnicodeError, LookupError):
+    BOM_OK = False
+SHAPES = ["x-empty", "x-ws", "x-trail", "x-concat", "x-close", "x-two"] + (["x-bom"] if BOM_OK else []) + [
+    "w-lead", "w-tail"]
+SHAPE_CLASS = {"x-empty": "empty", "x-ws": "empty", "x-trail": "trailing-data", "x-concat": "trailing-data",
+               "x-close": "trailing-data", "x-two": "trailing-data", "x-bom": "bom",
+               "w-lead": "padding", "w-tail": "padding"}
 
-INST_STATES = ["valid", "inv1", "inv3", "missing", "notjson", "null"]
-STDIN_STATES = ["valid", "inv3", "notjson", "null"]
+
+def shaped(kind, first, second, closer, n):
+    """first / second: texts of complete JSON values; closer: a closing bracket; n: a number."""
+    return {"x-empty": "", "x-ws": " \n\t\n",
+            "x-trail": first + " trailing words %d" % n,
+            "x-concat": second + first,
+            "x-close": first + closer,
+            "x-two": first + "\n" + second,
+            "x-bom": BOM + first,
+            "w-lead": "\n \t " + first,
+            "w-tail": second + " \n\n"}[kind]
+
+
+# ---- schema-file states
+BASE_SCHEMA = ["valid", "missing", "notjson", "invalid", "valid-ref", "d4only"]
+# a file whose whole content is a JSON value that is not a non-empty object: the boolean
+# schemas (schemas from draft 6 on, rejected by the draft 3/4 metaschemas), the empty
+# schema, and two values that are a schema under no draft
+VALUE_SCHEMA = ["true", "false", "obj0", "number", "null"]
+SCHEMA_STATES = BASE_SCHEMA + VALUE_SCHEMA + SHAPES
+SCHEMA_VALUE = {"invalid": S_INVALID, "valid": S_VALID, "valid-ref": S_REF, "d4only": S_D4ONLY,
+                "true": True, "false": False, "obj0": {}, "number": 12, "null": None}
+
+
+def schema_text(state):
+    if state == "notjson":
+        return "{not json"
+    if state in SCHEMA_VALUE:
+        return json.dumps(SCHEMA_VALUE[state])
+    t = json.dumps(S_VALID)
+    return shaped(state, t, t, "}", 0)
+
+
+# ---- instance-file / stdin states
+BASE_INST = ["valid", "inv1", "inv3", "missing", "notjson", "null"]
+INST_STATES = BASE_INST + SHAPES
+BASE_STDIN = ["valid", "inv3", "notjson", "null"]
+STDIN_STATES = BASE_STDIN + SHAPES
 MAXPOS = 4
 
 
@@ -67,27 +121,58 @@ def inst_value(state, p):
 
 
 def inst_text(state, p):
-    return "[1, %d," % p if state == "notjson" else json.dumps(inst_value(state, p))
+    if state == "notjson":
+        return "[1, %d," % p
+    if state == "x-close":
+        return "[1, %d]]" % p
+    if state == "x-two":
+        return "%d 13" % (20 + p)
+    if state == "x-concat":     # the complete value in front is an invalid instance, a valid one follows
+        return shaped(state, json.dumps(inst_value("valid", p)), json.dumps(inst_value("inv1", p)), "", p)
+    if state in SHAPE_CLASS:    # w-tail: an instance with three errors, then white space
+        return shaped(state, json.dumps(inst_value("valid", p)), json.dumps(inst_value("inv3", p)), "", p)
+    return json.dumps(inst_value(state, p))
 
 
 OUTFMT = [("plain", MARK), ("plain", None), ("pretty", None)]
 VALIDATORS = [None, "Draft4Validator", "Draft7Validator", "jsonschema.validators.Draft3Validator"]
 BASES = [False, True]
+NAMED = {"Draft4Validator": jsonschema.Draft4Validator, "Draft7Validator": jsonschema.Draft7Validator,
+         "jsonschema.validators.Draft3Validator": jsonschema.Draft3Validator}
 
 
-def selected_class(name):
-    """The class the command line has to use: the named one, else the one for the
-    schema's $schema — none of the schemas here has one, hence the latest draft."""
-    return {None: jsonschema.Draft7Validator, "Draft4Validator": jsonschema.Draft4Validator,
-            "Draft7Validator": jsonschema.Draft7Validator,
-            "jsonschema.validators.Draft3Validator": jsonschema.Draft3Validator}[name]
+def selector(name):
+    """The class the command line has to use for a loaded schema value: the named one,
+    else the one for the schema's $schema — no schema of the alphabet has one, hence the
+    latest draft; for a value that is neither an object nor a boolean the library's own
+    validator_for is asked (it may have no answer: the model's 'library raises')."""
+    if name is not None:
+        return lambda value: NAMED[name]
+
+    def select(value):
+        if isinstance(value, (dict, bool)):
+            return jsonschema.Draft7Validator
+        return jsonschema.validators.validator_for(value)
+    return select
 
 
-def all_lists(maxlen):
-    out = [{"stdin": s} for s in STDIN_STATES]
-    for n in range(1, maxlen + 1):
-        out.extend(list(t) for t in itertools.product(INST_STATES, repeat=n))
+def all_lists(maxlen, kinds=None, stdin=None, minlen=1):
+    kinds = INST_STATES if kinds is None else kinds
+    stdin = STDIN_STATES if stdin is None else stdin
+    out = [{"stdin": s} for s in stdin]
+    for n in range(minlen, maxlen + 1):
+        out.extend(list(t) for t in itertools.product(kinds, repeat=n))
     return out
+
+
+def has_shape(lst):
+    return any(k in SHAPE_CLASS for k in (lst.values() if isinstance(lst, dict) else lst))
+
+
+def unit_lists(full_len, base_len):
+    """Every list of length 1..full_len over the whole alphabet, every stdin state, and
+    the lists of length full_len+1..base_len over the base alphabet."""
+    return all_lists(full_len) + all_lists(base_len, BASE_INST, [], full_len + 1)
 
 
 # --------------------------------------------------------------- workspace ---
@@ -97,17 +182,21 @@ class Workspace(object):
     def __init__(self):
         base = "/dev/shm" if os.path.isdir("/dev/shm") and os.access("/dev/shm", os.W_OK) else None
         self.dir = os.path.realpath(tempfile.mkdtemp(prefix="jsv-c19-", dir=base))
-        for st, text in SCHEMA_TEXT.items():
-            self._w("S_%s.json" % st, text)
+        for st in SCHEMA_STATES:
+            if st != "missing":
+                self._w(schema_token(st), schema_text(st))
         os.mkdir(os.path.join(self.dir, "refs"))
         self._w(os.path.join("refs", "defs.json"), json.dumps(DEFS))
         for p in range(MAXPOS):
             for st in INST_STATES:
                 if st != "missing":
-                    self._w("p%d_%s.json" % (p, st), inst_text(st, p))
+                    self._w(inst_token(st, p), inst_text(st, p))
         self.base_uri = "file://" + self.dir + "/refs/"
+        self.memo = {}      # (schema state, validator, base-uri) -> the model's memo for these factors
+        self.roots = {}     # root_case: does this text shape misbehave on its own?
 
     def _w(self, name, text):
+        # default text encoding and newline handling: exactly what the command line's open(path) undoes
         with open(os.path.join(self.dir, name), "w") as f:
             f.write(text)
 
@@ -130,18 +219,21 @@ def inst_token(state, p):
 
 
 def describe(case):
-    """Oracle-side description of the files of a configuration (no file access)."""
+    """Oracle-side description of the files of a configuration (no file access): the
+    characters of each file; whether they load is the model's (the json module's) business."""
     st = case["schema"]
-    schema = {"token": schema_token(st), "state": st if st in ("missing", "notjson") else "json",
-              "value": SCHEMA_VALUE.get(st)}
+    schema = {"token": schema_token(st)}
+    if st == "missing":
+        schema["state"] = "missing"
+    else:
+        schema.update(state="text", text=schema_text(st))
     lst = case["list"]
     if isinstance(lst, dict):
         s = lst["stdin"]
-        insts = [{"token": "<stdin>", "state": "notjson" if s == "notjson" else "json",
-                  "value": None if s == "notjson" else inst_value(s, 0)}]
+        insts = [{"token": "<stdin>", "state": "text", "text": inst_text(s, 0), "key": ("stdin", s)}]
     else:
-        insts = [{"token": inst_token(s, p), "state": s if s in ("missing", "notjson") else "json",
-                  "value": None if s in ("missing", "notjson") else inst_value(s, p)}
+        insts = [{"token": inst_token(s, p), "state": "missing", "key": (s, p)} if s == "missing" else
+                 {"token": inst_token(s, p), "state": "text", "text": inst_text(s, p), "key": (s, p)}
                  for p, s in enumerate(lst)]
     return schema, insts
 
@@ -202,8 +294,9 @@ def observe_subproc(case, ws, ctx):
 
 def expected(case, ws):
     schema, insts = describe(case)
-    return model.expect(jsonschema, selected_class(case["validator"]), schema, insts,
-                        base_uri=ws.base_uri if case["base_uri"] else None)
+    memo = ws.memo.setdefault((case["schema"], case["validator"], case["base_uri"]), {})
+    return model.expect(jsonschema, None, schema, insts, base_uri=ws.base_uri if case["base_uri"] else None,
+                        memo=memo, select=selector(case["validator"]))
 
 
 def tokens_of(case):
@@ -244,7 +337,7 @@ def fold_table(ws, schema, validator, base_uri, stdin):
         if len(_fold_tables) > 200:
             _fold_tables.clear()
         t = _fold_tables[key] = {}
-        for l in all_lists(3):
+        for l in all_lists(3, BASE_INST, BASE_STDIN):
             if isinstance(l, dict) != stdin:
                 continue
             c = dict(schema=schema, list=l, validator=validator, base_uri=base_uri)
@@ -252,19 +345,53 @@ def fold_table(ws, schema, validator, base_uri, stdin):
     return t
 
 
+def root_case(case, ws, ctx):
+    """Loading a file does not depend on anything else on the command line.  When a text
+    shape is involved and that shape alone — as the only instance (or stdin) of the plainest
+    configuration, or as the schema file in front of one valid instance — already
+    misbehaves, that configuration is the report, whatever family its failure is in
+    (the same mis-loaded file shows as a wrong status here and as wrong output there)."""
+    stdin = isinstance(case["list"], dict)
+    cands = []
+    if case["schema"] in SHAPE_CLASS:
+        cands.append(dict(schema=case["schema"], list=["valid"]))
+        if stdin:
+            cands.append(dict(schema=case["schema"], list={"stdin": "valid"}))
+    for k in (case["list"].values() if stdin else case["list"]):
+        if k in SHAPE_CLASS:
+            cands.append(dict(schema="valid", list=[k]))    # a file first: stdin is named only when it takes stdin
+            if stdin:
+                cands.append(dict(schema="valid", list={"stdin": k}))
+    for c in cands:
+        c.update(mode=case["mode"], out="plain", fmt=MARK, validator=None, base_uri=False)
+        key = json.dumps([c["mode"], c["schema"], c["list"]])
+        if key not in ws.roots:
+            ws.roots[key] = judge(c, ws, ctx)[0] is not None
+        if ws.roots[key]:
+            return c
+    return None
+
+
 def shrink(case, kind, ws, ctx):
     """Greedy, inside the enumerated space: delete list elements, then move to the
     simplest factor values (re-choosing the list so that the expected fold stays the
     same — the same file is valid under one class and invalid under another), while
-    a failure of the same family persists."""
+    a failure of the same family persists.  Returns (case, loose): loose = the result
+    may fail in another family than the original did — the case is a text shape on its
+    own (root_case), or a failure seen through a real process was shrunk in-process, where
+    the same misbehaviour can look different (an escaping exception there is a traceback
+    and a status here)."""
+    root = root_case(case, ws, ctx)
+    if root is not None:
+        return root, True
     fam = family(kind)
-    # a failure seen through a real process is shrunk in-process when it shows there
-    # too (200 ms per subprocess); the caller re-judges the result in the original mode
-    via = case["mode"]
+    # a failure seen through a real process is shrunk in-process when the configuration fails
+    # there too (200 ms per subprocess); the caller re-judges the result in the original mode
+    via, loose = case["mode"], False
     if via == "subproc":
         prob, _, _ = judge(dict(case, mode="inproc"), ws, ctx)
-        if prob is not None and family(prob[0]) == fam:
-            via = "inproc"
+        if prob is not None:
+            via, loose, fam = "inproc", family(prob[0]) != fam, family(prob[0])
     memo = {}
 
     def still(c):
@@ -289,8 +416,7 @@ def shrink(case, kind, ws, ctx):
 
     def factors(cur):
         fold = model.coarse(expected(cur, ws))
-        schemas = ["valid"] if cur["schema"] in ("valid-ref", "d4only") else []
-        schemas.append(cur["schema"])
+        schemas = SIMPLER_SCHEMA.get(cur["schema"], []) + [cur["schema"]]
         vals = [v for v in (None, "Draft7Validator", "Draft4Validator") if v != cur["validator"]] + [cur["validator"]]
         bases = [False, True] if cur["base_uri"] else [False]
         cands = [(s, v, b) for s in schemas for v in vals for b in bases]
@@ -309,7 +435,27 @@ def shrink(case, kind, ws, ctx):
                     return cand
         return cur
 
-    cur = deletions(dict(case))
+    def plainer(cur):
+        """A text shape is replaced by the base state with the same model outcome, else by
+        the first shape of its class, where the failure persists."""
+        if isinstance(cur["list"], dict):       # stdin stays only where a file does not fail
+            cand = dict(cur, list=[cur["list"]["stdin"]])
+            if still(cand):
+                cur = cand
+        lst = cur["list"]
+        elems = [lst["stdin"]] if isinstance(lst, dict) else list(lst)
+        for i, k in enumerate(elems):
+            for alt in SIMPLER_INST.get(k, []):
+                if isinstance(lst, dict) and alt not in STDIN_STATES:
+                    continue
+                new = elems[:i] + [alt] + elems[i + 1:]
+                cand = dict(cur, list={"stdin": alt} if isinstance(lst, dict) else new)
+                if still(cand):
+                    cur, elems = cand, new
+                    break
+        return cur
+
+    cur = plainer(deletions(dict(case)))
     if via == "inproc":
         cur = factors(cur)
         if (cur["out"], cur["fmt"]) != ("plain", MARK):
@@ -317,13 +463,30 @@ def shrink(case, kind, ws, ctx):
             if still(cand):
                 cur = cand
         cur = deletions(cur)
-    return cur
+    return cur, loose
+
+
+SIMPLER_SCHEMA = {"valid-ref": ["valid"], "d4only": ["valid"], "true": ["valid"], "false": ["valid", "true"],
+                  "obj0": ["valid", "true"], "w-lead": ["valid"], "w-tail": ["valid"],
+                  "number": ["invalid"], "null": ["invalid", "number"],
+                  "x-empty": ["notjson"], "x-ws": ["notjson", "x-empty"], "x-trail": ["notjson"],
+                  "x-concat": ["notjson", "x-trail"], "x-close": ["notjson", "x-trail"],
+                  "x-two": ["notjson", "x-trail"], "x-bom": ["notjson"]}
+SIMPLER_INST = {"x-empty": ["notjson"], "x-ws": ["notjson", "x-empty"], "x-trail": ["notjson"],
+                "x-concat": ["notjson", "x-trail"], "x-close": ["notjson", "x-trail"],
+                "x-two": ["notjson", "x-trail"], "x-bom": ["notjson"], "w-lead": ["valid"], "w-tail": ["inv3"]}
 
 
 def signature(case, kind, exp):
     extra = ""
-    if case["schema"] in ("valid-ref", "d4only"):
+    if case["schema"] in SHAPE_CLASS:
+        extra += "|schema-text=" + SHAPE_CLASS[case["schema"]]
+    elif case["schema"] not in ("valid", "missing", "notjson", "invalid"):
         extra += "|schema=" + case["schema"]
+    lst = case["list"]
+    shapes = sorted(set(SHAPE_CLASS[k] for k in (lst.values() if isinstance(lst, dict) else lst) if k in SHAPE_CLASS))
+    if shapes:
+        extra += "|text=" + "+".join(shapes)
     if case["validator"]:
         extra += "|validator=" + case["validator"].rsplit(".", 1)[-1]
     if case["base_uri"]:
@@ -336,14 +499,77 @@ def signature(case, kind, exp):
 
 
 # ------------------------------------------------------------------- plan ---
-def covering_rows(idx):
-    """Covering array of strength 2 over (list in idx, schema, outfmt, validator, base-uri):
+def as_row(lst):
+    return ("stdin", lst["stdin"]) if isinstance(lst, dict) else tuple(lst)
+
+
+def as_list(row):
+    return {"stdin": row[1]} if row[0] == "stdin" else list(row)
+
+
+def schema_outcome(state, validator):
+    """What the model says about a schema-file state under a --validator option:
+    accepted | rejected | unreadable | library-raises."""
+    schema, _ = describe(dict(schema=state, list=[]))
+    failure = model._schema_step(jsonschema, None, schema, selector(validator))[0]
+    return "accepted" if failure is None else {"diag": "unreadable", "err": "rejected", "crash": "library-raises"}[failure[0]]
+
+
+def accepting():
+    """schema state index -> the (output, validator, base-uri) index triples under which the model
+    runs the instance fold, output-major (so that each third of the list is one output mode)."""
+    acc = {}
+    for j, st in enumerate(SCHEMA_STATES):
+        vs = [v for v in range(len(VALIDATORS)) if schema_outcome(st, VALIDATORS[v]) == "accepted"]
+        if vs:
+            acc[j] = [(o, v, b) for o in range(len(OUTFMT)) for v in vs for b in range(len(BASES))]
+    return acc
+
+
+def alphabet_check():
+    """The alphabet means what its names say (otherwise the exploration would be vacuous)."""
+    def loads(text):
+        try:
+            json.loads(text)
+        except ValueError:
+            return False
+        return True
+    for k in SHAPES:
+        want = k.startswith("w-")
+        texts = [schema_text(k)] + [inst_text(k, p) for p in range(MAXPOS)]
+        if any(loads(t) != want for t in texts):
+            raise RuntimeError("text shape %s: json.loads does not %s it" % (k, "load" if want else "reject"))
+    for k in ("valid", "inv1", "inv3", "null"):
+        if not all(loads(inst_text(k, p)) for p in range(MAXPOS)):
+            raise RuntimeError("instance state %s does not load" % k)
+    if loads(schema_text("notjson")) or any(loads(inst_text("notjson", p)) for p in range(MAXPOS)):
+        raise RuntimeError("the not-JSON state loads")
+    want = {("true", None): "accepted", ("false", None): "accepted", ("obj0", None): "accepted",
+            ("true", "Draft4Validator"): "rejected", ("false", "Draft4Validator"): "rejected",
+            ("false", "jsonschema.validators.Draft3Validator"): "rejected", ("false", "Draft7Validator"): "accepted",
+            ("obj0", "Draft4Validator"): "accepted", ("w-lead", None): "accepted", ("w-tail", None): "accepted",
+            ("d4only", None): "rejected", ("d4only", "Draft4Validator"): "accepted",
+            ("number", "Draft4Validator"): "rejected", ("null", "Draft7Validator"): "rejected"}
+    for (st, v), w in sorted(want.items(), key=repr):
+        if schema_outcome(st, v) != w:
+            raise RuntimeError("schema state %s under --validator %s: the library says %s, the alphabet assumes %s"
+                               % (st, v, schema_outcome(st, v), w))
+    tokens = [schema_token(st) for st in SCHEMA_STATES] + [inst_token(st, p) for st in INST_STATES
+                                                           for p in range(MAXPOS)] + ["<stdin>"]
+    for x in tokens:
+        for y in tokens:
+            if x != y and x in y:
+                raise RuntimeError("file token %s is part of %s" % (x, y))
+
+
+def covering_rows(rows_of_lists, schema_idx):
+    """Covering array of strength 2 over (list, schema in schema_idx, outfmt, validator, base-uri):
     every (list, schema) pair with the other factors rotated, then completed greedily and verified."""
-    dims = [idx, range(len(SCHEMA_STATES)), range(len(OUTFMT)), range(len(VALIDATORS)), range(len(BASES))]
+    dims = [rows_of_lists, schema_idx, range(len(OUTFMT)), range(len(VALIDATORS)), range(len(BASES))]
     rows = []
-    for n, i in enumerate(idx):
-        for j in range(len(SCHEMA_STATES)):
-            rows.append((i, j, (n + j) % 3, (n // 3 + j) % 4, (n // 12 + j // 3 + j) % 2))
+    for n, l in enumerate(rows_of_lists):
+        for m, j in enumerate(schema_idx):
+            rows.append((l, j, (n + m) % 3, (n // 3 + m) % 4, (n // 12 + m // 3 + m) % 2))
     covered = set()
 
     def pairs(r):
@@ -358,33 +584,97 @@ def covering_rows(idx):
                 for y in dims[b]:
                     if (a, x, b, y) not in covered:
                         filled += 1
-                        r = [idx[0], 0, 0, 0, 0]
+                        r = [rows_of_lists[0], schema_idx[0], 0, 0, 0]
                         r[a], r[b] = x, y
                         rows.append(tuple(r))
                         covered.update(pairs(tuple(r)))
     return rows, filled
 
 
-def subprocess_rows(lists, thorough):
-    short = [i for i, l in enumerate(lists) if isinstance(l, dict) or len(l) <= 2]
-    long = [i for i, l in enumerate(lists) if not isinstance(l, dict) and len(l) == 3]
+def rotated(lists, acc, schemas, per_list):
+    """Every list with every schema of `schemas` (per_list = 'all') or with one of them in turn
+    (per_list = 'one'), each time under one accepting factor triple: the output mode advances with the
+    list's content and the schema, and among the triples of that output mode the one whose (position,
+    state, schema) combinations have been used least so far is taken (first such on ties) — deterministic."""
+    rows, used = [], {}
+    for n, l in enumerate(lists):
+        js = list(enumerate(schemas)) if per_list == "all" else [(n % len(schemas), schemas[n % len(schemas)])]
+        ks = [INST_STATES.index(k) for k in l]
+        for m, j in js:
+            a = acc[j]
+            third = len(a) // len(OUTFMT)       # a is output-major
+            o = (sum(ks) + m + (n if per_list == "one" else 0)) % len(OUTFMT)
+            best = min(range(o * third, (o + 1) * third),
+                       key=lambda i: (sum(used.get((pos, k, j, i), 0) for pos, k in enumerate(ks)), i))
+            for pos, k in enumerate(ks):
+                used[(pos, k, j, best)] = used.get((pos, k, j, best), 0) + 1
+            rows.append((l, j) + a[best])
+    return rows
+
+
+def rotation_coverage(rows, acc, schemas):
+    """Verified, not assumed: every (position, state at that position, schema, accepting factor triple)
+    occurs, and every list is run under all three output modes."""
+    seen, outs = set(), {}
+    for r in rows:
+        for pos, k in enumerate(r[0]):
+            seen.add((pos, k, r[1], r[2:]))
+        outs.setdefault(r[0], set()).add(r[2])
+    want = set((pos, k, j, t) for pos in range(3) for k in INST_STATES for j in schemas for t in acc[j])
+    return want <= seen, all(len(v) == len(OUTFMT) for v in outs.values())
+
+
+def subprocess_rows(thorough, acc):
+    every = list(range(len(SCHEMA_STATES)))
+    base = [SCHEMA_STATES.index(x) for x in BASE_SCHEMA]
+    foldable = sorted(acc)
+    stops = [j for j in every if j not in acc]
+    single = [as_row(l) for l in all_lists(1)]                           # one file or stdin, whole alphabet
+    single_base = [as_row(l) for l in all_lists(1, BASE_INST, BASE_STDIN)]
+    single_shape = [l for l in single if l not in single_base]
+    pairs_base = [as_row(l) for l in all_lists(2, BASE_INST, [], 2)]
+    triples_base = [as_row(l) for l in all_lists(3, BASE_INST, [], 3)]
+    what = ("schema states the model accepts under some --validator ('fold runs'), the other schema states ('stops')")
     if thorough:
-        rows = [(i, s, o, v, b) for i in short for s in range(len(SCHEMA_STATES))
+        pairs_shape = [as_row(l) for l in all_lists(2, None, [], 2) if has_shape(l)]
+        rows = [(l, s, o, v, b) for lists, schemas in ((single, foldable), (single_base, stops))
+                for l in lists for s in schemas
                 for o in range(len(OUTFMT)) for v in range(len(VALIDATORS)) for b in range(len(BASES))]
-        more, filled = covering_rows(long)
-        rows += more
+        filled = 0
+        for lists, schemas in ((single_shape, stops), (pairs_base, every), (pairs_shape, foldable), (triples_base, base)):
+            more, f = covering_rows(lists, schemas)
+            rows += more
+            filled += f
+        text = ("%s: the full product for one file / stdin over the whole alphabet x 'fold runs' and for one file / stdin "
+                "over the base alphabet x 'stops'; strength-2 covering arrays over the five factors (every (list, schema) "
+                "pair, other factors rotated, %d rows added to complete them) for one file / stdin text shape x 'stops', "
+                "the pairs over the base alphabet x every schema state, the pairs containing a text shape x 'fold runs', "
+                "the triples over the base alphabet x base schema states" % (what, filled))
     else:
-        rows, filled = covering_rows(short)
-        loads = [SCHEMA_STATES.index(x) for x in ("valid", "valid-ref", "d4only")]
-        for n, i in enumerate(long):
-            rows.append((i, loads[n % 3], (n // 3) % 3, (n // 9 + n) % 4, (n // 2) % 2))
-    return sorted(set(rows)), filled
+        rows, f1 = covering_rows(single, foldable)
+        more, f2 = covering_rows(single_base, stops)
+        rows += more
+        more, f3 = covering_rows(pairs_base, base)
+        rows += more
+        for n, l in enumerate(single_shape):
+            for t in range(2):
+                m = 2 * n + t
+                rows.append((l, stops[m % len(stops)], m % 3, (m // 3) % 4, (m // 2) % 2))
+        rows += rotated(triples_base, acc, foldable, "one")
+        text = ("%s: strength-2 covering arrays over the five factors (every (list, schema) pair, other factors rotated; "
+                "coverage of all factor-value pairs verified, %d rows added to complete them) for one file / stdin "
+                "over the whole alphabet x 'fold runs', one file / stdin over the base alphabet x 'stops', the pairs over "
+                "the base alphabet x base schema states; every file / stdin text shape on two of the 'stops' states; "
+                "every triple over the base alphabet once on a 'fold runs' state and accepting factors (rotated)"
+                % (what, f1 + f2 + f3))
+    return sorted(set(rows), key=repr), text
 
 
 def plan(ctx):
-    maxlen = 4 if ctx.thorough else 3
-    lists = all_lists(maxlen)
-    lists3 = all_lists(3)
+    full_len, base_len = (3, 4) if ctx.thorough else (2, 3)
+    alphabet_check()
+    acc = accepting()
+    foldable = sorted(acc)
     # the subprocesses must import the tree under test
     out = subprocess.run([sys.executable, "-c", "import jsonschema,os;print(os.path.realpath(jsonschema.__file__))"],
                          cwd="/", env=sub_env(ctx), capture_output=True, text=True, timeout=120)
@@ -395,42 +685,76 @@ def plan(ctx):
         for o in range(len(OUTFMT)):
             for v in range(len(VALIDATORS)):
                 for b in range(len(BASES)):
-                    units.append(("inproc", maxlen, s, o, v, b))
-    rows, filled = subprocess_rows(lists3, ctx.thorough)
+                    units.append(("inproc", full_len, base_len, s, o, v, b))
+    per_unit = len(unit_lists(full_len, base_len))
+    inproc_cfgs = per_unit * len(SCHEMA_STATES) * len(OUTFMT) * len(VALIDATORS) * len(BASES)
+    rot_rows = []
+    if not ctx.thorough:
+        # length 3 with at least one text shape: every list x every schema state on which the fold runs
+        triples_shape = [as_row(l) for l in all_lists(3, None, [], 3) if has_shape(l)]
+        rot_rows = rotated(triples_shape, acc, foldable, "all")
+        ok_tuples, ok_outs = rotation_coverage(rot_rows, acc, foldable)
+        if not (ok_tuples and ok_outs and len(set(rot_rows)) == len(rot_rows)):
+            raise RuntimeError("rotation does not cover what the rule states")
+        for j in foldable:
+            mine = [r for r in rot_rows if r[1] == j]
+            n = (len(mine) + 599) // 600
+            for c in range(n):
+                units.append(("inproc-rows", tuple(mine[c::n])))
+    rows, sub_text = subprocess_rows(ctx.thorough, acc)
     chunk = 48 if ctx.thorough else 16
     # interleave so that every chunk mixes cheap and expensive rows
     nchunks = (len(rows) + chunk - 1) // chunk
     for c in range(nchunks):
         units.append(("subproc", tuple(rows[c::nchunks])))
-    inproc_cfgs = len(lists) * len(SCHEMA_STATES) * len(OUTFMT) * len(VALIDATORS) * len(BASES)
+    shapes = ("text shapes around a complete JSON value {empty file, white space only, value + trailing words, "
+              "two values back to back, value + extra closing bracket, two values on two lines, %svalue after "
+              "leading white space, value + trailing white space / newlines}; whether a text loads is decided by "
+              "json.loads in the model" % ("byte order mark + value, " if BOM_OK else ""))
     return {
         "units": units,
-        "rule": ("configuration = schema-file state x instance list (every list of length 1..%d over "
-                 "{valid, invalid-1-error, invalid-3-errors, missing, not-JSON}, or one instance on stdin "
-                 "in {valid, invalid, not-JSON}) x {plain+marker format, plain, pretty} x --validator "
+        "rule": ("configuration = schema-file state x instance list x {plain+marker format, plain, pretty} x --validator "
                  "{absent, Draft4Validator, Draft7Validator, jsonschema.validators.Draft3Validator} x --base-uri "
-                 "{absent, file:// directory}; the full product is run through cli.run in-process; "
-                 "%s through real `python -m jsonschema` processes (cwd = scratch dir, relative paths). "
-                 "Configurations are distinct by construction (a product of factor values, each taken once); "
-                 "the two execution modes are counted separately. Non-trivial = the schema is accepted, so the "
-                 "instance fold actually runs (at least one transition)" % (
-                     maxlen, ("the full product for the lists of length <= 2 and stdin, plus a strength-2 covering array over "
-                               "the five factors for the lists of length 3 (%d rows added to complete it)" % filled)
-                     if ctx.thorough else
-                     ("a strength-2 covering array over the five factors for the lists of length <= 2 and stdin (every "
-                      "(list, schema) pair, other factors rotated; coverage of all factor-value pairs verified, %d rows "
-                      "added to complete it) plus every list of length 3 once on a schema that loads" % filled))),
-        "bounds": {"tier": ctx.tier, "max_list_length": maxlen, "instance_lists": len(lists),
-                   "schema_states": len(SCHEMA_STATES), "output_modes": len(OUTFMT),
+                 "{absent, file:// directory}. Schema-file states: base {valid, missing, not-JSON, invalid schema, valid "
+                 "with relative file references, accepted by drafts 3/4 only} + whole-file values {true, false, {}, 12, "
+                 "null} + the valid schema in each of the %d %s. Instance states: base {valid, invalid-1-error, "
+                 "invalid-3-errors, missing, not-JSON (truncated), null} + the same %d text shapes; stdin: {valid, "
+                 "invalid-3-errors, not-JSON, null} + the text shapes. In-process (cli.run, real files), full product of "
+                 "the five factors with: every list of length 1..%d over the whole instance alphabet (%d states), every "
+                 "stdin state, every list of length %d..%d over the base alphabet. %s"
+                 "Through real `python -m jsonschema` processes (cwd = scratch dir, relative paths): %s. "
+                 "Configurations are distinct by construction (products / verified duplicate-free row sets); the two "
+                 "execution modes are counted separately. Non-trivial = the schema is accepted, so the instance fold "
+                 "actually runs (at least one transition)" % (
+                     len(SHAPES), shapes, len(SHAPES), full_len, len(INST_STATES), full_len + 1, base_len,
+                     "" if ctx.thorough else
+                     ("Lists of length 3 containing a text shape (%d): each with each of the %d schema states the model "
+                      "accepts under some --validator, under one accepting (output, validator, base-uri) triple chosen "
+                      "by rotation (%d rows; verified: every (position, instance state, schema state, accepting triple) "
+                      "occurs and every list meets all three output modes). " % (
+                          len(rot_rows) // len(foldable), len(foldable), len(rot_rows))),
+                     sub_text)),
+        "bounds": {"tier": ctx.tier, "max_list_length_whole_alphabet": 3, "max_list_length_full_product_whole_alphabet": full_len,
+                   "max_list_length_base_alphabet": base_len,
+                   "instance_states": len(INST_STATES), "stdin_states": len(STDIN_STATES),
+                   "text_shapes": list(SHAPES), "byte_order_mark_encodable": BOM_OK,
+                   "instance_lists_per_factor_combination": per_unit,
+                   "schema_states": len(SCHEMA_STATES), "schema_states_fold_runs": [SCHEMA_STATES[j] for j in foldable],
+                   "output_modes": len(OUTFMT),
                    "validator_options": len(VALIDATORS), "base_uri_options": len(BASES),
-                   "inprocess_configurations": inproc_cfgs, "subprocess_configurations": len(rows),
-                   "fold_state_space": "status so far in {0, non-zero} x position 0..%d, plus 'schema failed'" % maxlen},
+                   "inprocess_configurations": inproc_cfgs + len(rot_rows), "inprocess_rotated_rows": len(rot_rows),
+                   "subprocess_configurations": len(rows),
+                   "fold_state_space": "status so far in {0, non-zero} x position 0..%d, plus 'schema failed'" % base_len},
         "assumptions": [
             "the library's own iter_errors (fresh validator of the class the command line must select) is the "
             "reference for each instance; C01-C06 decide whether those errors are right",
+            "whether the text of a file or of stdin is a JSON document is what json.loads of that text says",
             "wording of built-in templates is not compared: exact text only for the caller-supplied marker format",
             "a schema with an unresolvable relative reference (no --base-uri) makes the library raise; the "
             "model then only requires a non-zero outcome and the correct output up to that instance",
+            "a schema file holding a number or null and no --validator: the library's validator_for raises on such "
+            "a value; the model then only requires a non-zero outcome, empty stdout and no instance touched",
+            "files are written with the interpreter's default text encoding, the one the command line reads them with",
         ],
     }
 
@@ -454,15 +778,15 @@ def run_unit(unit, ctx):
     states = set()
     with Workspace() as ws:
         if unit[0] == "inproc":
-            _, maxlen, s, o, v, b = unit
+            _, full_len, base_len, s, o, v, b = unit
             cfgs = [dict(mode="inproc", schema=SCHEMA_STATES[s], list=l, out=OUTFMT[o][0], fmt=OUTFMT[o][1],
-                         validator=VALIDATORS[v], base_uri=BASES[b]) for l in all_lists(maxlen)]
+                         validator=VALIDATORS[v], base_uri=BASES[b]) for l in unit_lists(full_len, base_len)]
             skey = (s, o, v, b)
         else:
-            lists3 = all_lists(3)
-            cfgs = [dict(mode="subproc", schema=SCHEMA_STATES[s], list=lists3[i], out=OUTFMT[o][0],
+            mode = "inproc" if unit[0] == "inproc-rows" else "subproc"
+            cfgs = [dict(mode=mode, schema=SCHEMA_STATES[s], list=as_list(l), out=OUTFMT[o][0],
                          fmt=OUTFMT[o][1], validator=VALIDATORS[v], base_uri=BASES[b])
-                    for (i, s, o, v, b) in unit[1]]
+                    for (l, s, o, v, b) in unit[1]]
             skey = None
         for n, case in enumerate(cfgs):
             prob, exp, obs = judge(case, ws, ctx)
@@ -476,10 +800,19 @@ def run_unit(unit, ctx):
                 nt += 1
             oc = "%s:%s:%s" % (case["mode"], "nonzero" if exp["nonzero"] else "zero", model.coarse(exp))
             outcomes[oc] = outcomes.get(oc, 0) + 1
+            # vacuity guard for the text dimension: what the model made of every schema state / text shape
+            oc = "schema-state:%s:%s" % (case["schema"], model.coarse(exp) if exp["schema_failure"] else "accepted")
+            outcomes[oc] = outcomes.get(oc, 0) + 1
+            if exp["schema_failure"] is None:
+                lst = case["list"]
+                for k, it in zip(lst.values() if isinstance(lst, dict) else lst, exp["items"]):
+                    if k in SHAPE_CLASS:
+                        oc = "text-shape:%s:%s" % (k, "does-not-load" if it[0] == "diag" else "loads")
+                        outcomes[oc] = outcomes.get(oc, 0) + 1
             if prob is not None:
-                small = shrink(case, prob[0], ws, ctx)
+                small, loose = shrink(case, prob[0], ws, ctx)
                 p2, e2, o2 = judge(small, ws, ctx)
-                if p2 is None or family(p2[0]) != family(prob[0]):
+                if p2 is None or (not loose and family(p2[0]) != family(prob[0])):
                     small, p2, e2, o2 = case, prob, exp, obs
                 viol.append({"signature": signature(small, p2[0], e2), "case": small,
                              "size": (0 if isinstance(small["list"], dict) else len(small["list"])) * 10
@@ -493,9 +826,9 @@ def run_unit(unit, ctx):
                 samples.append({"argv": shown_argv(case, ws), "mode": case["mode"],
                                 "expected_fold": model.coarse(exp), "expected_nonzero": exp["nonzero"],
                                 "observed_status": obs["status"]})
-    # every subprocess configuration is also an in-process one: its fold states are counted there
+    # the fold states of the subprocess and rotated-row configurations are all visited (and counted) by the product units
     counters = {"states": len(states) if unit[0] == "inproc" else 0, "transitions": trans, "traces_validated_against_impl": ev,
-                ("inprocess_runs" if unit[0] == "inproc" else "subprocess_runs"): ev}
+                ("inprocess_runs" if unit[0] != "subproc" else "subprocess_runs"): ev}
     return {"evaluations": ev, "nontrivial": nt, "violations": viol, "samples": samples,
             "outcomes": outcomes, "counters": counters}
 
